@@ -89,12 +89,14 @@ PROPS["C16"] = {
     "theorems": ["Toxi.Conc." + t for t in [
         "C16_alone_is_sequential", "C16_sequential_runs", "C16_single_block_atomic", "C16_toxic_effect_atomic",
         "alone_single", "alone_toxic", "alone_update", "step_update", "step_toxic_absent", "kindOf_toxic_inv", "kindOf_update_inv",
-        "C16_zombie_witness", "C16_zombie_not_sequential", "C16_lost_disable_witness", "C16_lost_disable_not_sequential"]],
+        "alone_replace", "step_replace", "kindOf_replace_inv", "find_replace_self",
+        "C16_zombie_witness", "C16_zombie_not_sequential", "C16_lost_disable_witness", "C16_lost_disable_not_sequential",
+        "C16_replace_race_witness", "C16_replace_race_not_sequential"]],
     "engines": [{"engine": "e7", "args": [], "tag": "C16"}],
-    "model_scope": "api.go handlers as sequences of atomic blocks (Model/Conc.lean): ProxyCreate/ProxyDelete/Populate/reads one block (ProxyCollection.Add/Remove/AddOrReplace under the collection lock), toxic add/update/remove two blocks (lookup, then the ToxicCollection method on that object), ProxyUpdate four (lookup, unlocked read of the defaults + decode, Proxy.Update whose stop-then-start is visible half-way to unlocked readers); proxy objects identified by (name, epoch); listeners of unregistered objects (zombies)",
+    "model_scope": "api.go handlers as sequences of atomic blocks (Model/Conc.lean): ProxyCreate/ProxyDelete/reads one block (ProxyCollection.Add/Remove under the collection lock), a populate that replaces a running proxy two (AddOrReplace: existing.Stop(), then proxy.Start() and the insert — the collection lock is held across both, which stops every other handler's first block but not a Proxy.Update in progress), toxic add/update/remove two blocks (lookup, then the ToxicCollection method on that object), ProxyUpdate four (lookup, unlocked read of the defaults + decode, Proxy.Update whose stop-then-start is visible half-way to unlocked readers); proxy objects identified by (name, epoch); listeners of unregistered objects (zombies)",
     "assumptions": _E4_ASSUME + [
         "sync.Mutex/RWMutex give mutual exclusion; a block is what one critical section (or one unlocked read) does — data races inside a block other than the ones modelled (the unlocked reads of a proxy's listen/upstream/enabled) are not modelled",
-        "E7's schedules are the real scheduler's plus pseudo-random sleeps at the seven yield points the overlay inserts into api.go; nothing guarantees that every interleaving is visited",
+        "E7's schedules are the real scheduler's plus pseudo-random sleeps at the yield points the overlay inserts into api.go (seven), proxy.go (before Proxy.Update's restart) and proxy_collection.go (between AddOrReplace's stop and start); nothing guarantees that every interleaving is visited",
         "response bodies are not compared (marshalled after the locks are released); multi-entry populate and reset are excluded from the overlapping sets",
     ],
 }
@@ -115,7 +117,11 @@ PROPS["C05"] = _api("C05", ["C05_browser_403", "C05_unrouted", "step_routed", "C
                             "C05_create_dup_409", "C05_create_bad_400", "C05_create_ok", "C05_default_enabled",
                             "C05_toxic_defaults", "C05_toxic_rejects", "C05_toxic_dup_409", "C05_read_your_writes",
                             "C05_listing_order", "addToxic_ok", "inv_step", "C05_reachable_inv"])
-PROPS["C05"]["lean_modules"] = PROPS["C05"]["lean_modules"] + ["Toxi.Proofs.Lemmas.InvStep"]
+PROPS["C05"]["lean_modules"] = PROPS["C05"]["lean_modules"] + ["Toxi.Proofs.Lemmas.InvStep", "Toxi.Proofs.Lemmas.Ports"]
+PROPS["C05"]["theorems"] = PROPS["C05"]["theorems"] + ["Toxi.Api." + t for t in [
+    "C05_reachable_ports", "pinv_step", "ports_nodup", "startProxy_spec", "pinv_replace", "pinv_append", "fits_updateProxy"]]
+PROPS["C05"]["assumptions"] = PROPS["C05"]["assumptions"] + [
+    "port exclusivity (C05_reachable_ports) is under hypothesis boundOK on the address table measured from the real net.Listen / ResolveTCPAddr: the address a listener reports is a spelling of the table with the same port; the model driver evaluates boundOK on the measured table in every E4 session (a false value is reported as a broken obligation)"]
 PROPS["C06"] = _api("C06", ["C06_rejected_unchanged", "C06_populate_validates_first", "C06_exception_update", "C06_legacy_leaks",
                             "dispatch_unchanged", "updateToxic_fixed_err", "C06_rejected_unchanged_reachable", "inv_step"],
                     ["treatment of traffic: the registry state compared contains every toxic's attributes and toxicity; that links run exactly the listed configuration is C04"])
@@ -183,24 +189,40 @@ PROPS["C01"]["lean_modules"] = PROPS["C01"]["lean_modules"] + ["Toxi.Proofs.Lemm
 PROPS["C01"]["theorems"] += ["Toxi.Link.C15_move_graceful", "Toxi.Link.C15_settle_graceful", "Toxi.Link.C15_graceful_end", "Toxi.Link.GInv_new"]
 # C02: the whole-link invariant across AddToxic / UpdateToxic / RemoveToxic (Proofs/Lemmas/Reconf.lean)
 PROPS["C02"]["lean_modules"] = PROPS["C02"]["lean_modules"] + ["Toxi.Proofs.Lemmas.Reconf"]
-PROPS["C02"]["theorems"] += ["Toxi.Link.C02_move_conserves", "Toxi.Link.C02_exec", "Toxi.Link.C02_complete", "Toxi.Link.C02_prefix",
+PROPS["C02"]["theorems"] += ["Toxi.Link.C02_anymove_conserves", "Toxi.Link.C02_move_conserves", "Toxi.Link.C02_exec", "Toxi.Link.C02_complete", "Toxi.Link.C02_prefix",
                              "Toxi.Link.RInv_exec", "Toxi.Link.RInv_of_LInv", "Toxi.Link.LInv_of_RInv",
                              "Toxi.Link.r_handoff", "Toxi.Link.r_stageMove", "Toxi.Link.r_sinkMove", "Toxi.Link.r_bufferMove", "Toxi.Link.r_sourceMove",
                              "Toxi.Link.r_ctl_add", "Toxi.Link.r_ctl_upd", "Toxi.Link.r_ctl_rmIntr", "Toxi.Link.r_ctl_rmLoop", "Toxi.Link.r_ctl_rmDrain",
                              "Toxi.Link.r_beginAdd", "Toxi.Link.r_beginUpdate", "Toxi.Link.r_beginRemove",
                              "Toxi.Toxic.interrupt_ok", "Toxi.Link.fire_interrupt", "Toxi.Link.Ex.exec7"]
+# C01/C02: the in-order-part invariant for every toxic and every state (Proofs/Lemmas/Order.lean)
+for _p in ("C01", "C02"):
+    PROPS[_p]["lean_modules"] = PROPS[_p]["lean_modules"] + ["Toxi.Proofs.Lemmas.Order", "Toxi.Proofs.Lemmas.Collect"]
+    PROPS[_p]["theorems"] += ["Toxi.Link.C02_reach", "Toxi.Link.cinv_reach", "Toxi.Link.cinv_move", "Toxi.Link.C02_collection",
+                              "Toxi.Link.O_anymove", "Toxi.Link.anyMove_of_move", "Toxi.Link.C01_anymove_conserves"]
+    PROPS[_p]["theorems"] += ["Toxi.Link.C02_in_order", "Toxi.Link.O_move", "Toxi.Link.OInv_exec", "Toxi.Link.OInv_new", "Toxi.Toxic.step_sub",
+                              "Toxi.Link.o_stageMove", "Toxi.Link.o_sinkMove", "Toxi.Link.o_bufferMove", "Toxi.Link.o_sourceMove", "Toxi.Link.o_ctlMove"]
+# C02/C04 at collection level, no loss + alignment (Proofs/Lemmas/CollectR.lean)
+for _p in ("C02", "C04"):
+    PROPS[_p]["lean_modules"] = PROPS[_p]["lean_modules"] + ["Toxi.Proofs.Lemmas.CollectR"]
+    PROPS[_p]["theorems"] += ["Toxi.Link.C02_reachR", "Toxi.Link.rcoll_reach", "Toxi.Link.rcoll_move"]
 # C04: alignment of the stubs with the chain along every execution (Proofs/Lemmas/Aligned.lean)
 PROPS["C04"]["lean_modules"] = PROPS["C04"]["lean_modules"] + ["Toxi.Proofs.Lemmas.Aligned"]
-PROPS["C04"]["theorems"] += ["Toxi.Link.C04_exec", "Toxi.Link.t_exec", "Toxi.Link.t_move", "Toxi.Link.t_ctlMove", "Toxi.Link.t_new",
+PROPS["C04"]["theorems"] += ["Toxi.Link.C04_exec", "Toxi.Link.t_exec", "Toxi.Link.t_move", "Toxi.Link.t_anymove", "Toxi.Link.t_ctlMove", "Toxi.Link.t_new",
                              "Toxi.Link.same_stageMove", "Toxi.Link.same_sinkMove", "Toxi.Link.same_bufferMove", "Toxi.Link.same_sourceMove"]
+# C16: linearizability theorem for the handlers that hold their lock across the effect (Proofs/Lemmas/Commit.lean)
+def _c16_extra():
+    PROPS["C16"]["lean_modules"] = PROPS["C16"]["lean_modules"] + ["Toxi.Proofs.Lemmas.Commit"]
+    PROPS["C16"]["theorems"] = PROPS["C16"]["theorems"] + ["Toxi.Conc.C16_commit_order", "Toxi.Conc.C16_linearizable", "Toxi.Conc.advance_calm"]
 # C15: the graceful end of a connection (Proofs/Lemmas/Graceful.lean)
 def _c15_extra():
-    PROPS["C15"]["lean_modules"] = PROPS["C15"]["lean_modules"] + ["Toxi.Proofs.Lemmas.Graceful", "Toxi.Proofs.Lemmas.Rest"]
+    PROPS["C15"]["lean_modules"] = PROPS["C15"]["lean_modules"] + ["Toxi.Proofs.Lemmas.Graceful", "Toxi.Proofs.Lemmas.Rest", "Toxi.Proofs.Lemmas.Census"]
     PROPS["C15"]["theorems"] = PROPS["C15"]["theorems"] + ["Toxi.Link.C15_move_graceful", "Toxi.Link.C15_settle_graceful",
                                                            "Toxi.Link.C15_graceful_end", "Toxi.Link.GInv_new", "Toxi.Link.GInv_env",
-                                                           "Toxi.Link.C15_move_shape", "Toxi.Link.C15_move_sq", "Toxi.Link.C15_at_rest",
+                                                           "Toxi.Link.C15_move_shape", "Toxi.Link.C15_move_sq", "Toxi.Link.C15_anymove_shape", "Toxi.Link.C15_anymove_sq",
+                                                           "Toxi.Link.C15_anymove_graceful", "Toxi.Link.C15_at_rest",
                                                            "Toxi.Link.C15_exec", "Toxi.Link.C15_nothing_left", "Toxi.Toxic.step_plain",
-                                                           "Toxi.Link.EInv_new", "Toxi.Link.ExR.exec3"]
+                                                           "Toxi.Link.EInv_new", "Toxi.Link.ExR.exec3", "Toxi.Link.C15_census"]
 PROPS["C14"]["engines"] = PROPS["C14"]["engines"] + [{"engine": "e3", "gotest": True, "args": ["-props", "C14"], "tag": "C14link"}]
 PROPS["C14"]["model_scope"] += "; toxic_collection.go UpdateToxicJson -> chainUpdateToxic -> link.UpdateToxic (restart with a fresh draw) via the link model (E3)"
 PROPS["C11"]["engines"] = PROPS["C11"]["engines"] + [{"engine": "e3", "gotest": True, "args": ["-props", "C11", "-mode", "all"], "tag": "C11link"}]
@@ -238,6 +260,15 @@ PROPS["C20"] = _conn("C20", ["Toxi.Proofs.C20"],
                      ["Toxi.Conn.C20_monotone", "Toxi.Conn.C20_once", "Toxi.Conn.C20_exact", "Toxi.Conn.C20_labels", "Toxi.Conn.countRS_comm"],
                      "link.go read/write counter updates, metrics.go, collectors/proxy.go label set: Model/Conn.lean countR/countS")
 
+# C03 / C15 / C20 at the level of whole connections (Proofs/Lemmas/Frame.lean, Stopped.lean, Counters.lean)
+for _p in ("C03", "C15"):
+    PROPS[_p]["lean_modules"] = PROPS[_p]["lean_modules"] + ["Toxi.Proofs.Lemmas.Stopped"]
+    PROPS[_p]["theorems"] = PROPS[_p]["theorems"] + ["Toxi.Link.C03_stop_leaves_nothing", "Toxi.Link.C03_stopped_link_ends",
+                                                     "Toxi.Link.killed_exec", "Toxi.Link.stop_links", "Toxi.Link.frame_anymove"]
+PROPS["C20"]["lean_modules"] = PROPS["C20"]["lean_modules"] + ["Toxi.Proofs.Lemmas.Counters"]
+PROPS["C20"]["theorems"] = PROPS["C20"]["theorems"] + ["Toxi.Link.C20_graceful_exact", "Toxi.Link.ginv_exec", "Toxi.Link.frame_anymove",
+                                                       "Toxi.Link.keep_sinkMove", "Toxi.Link.keep_sourceMove", "Toxi.Link.ExC.exec3"]
+
 # ---- regenerated facts: every property also depends on the ties of the code it models
 _TIES = {
     "C01": ["tie_no_receiver_writes", "tie_link_start", "tie_link_read", "tie_link_write", "tie_run", "tie_chanreader", "tie_toxics"],
@@ -262,3 +293,4 @@ for _p, _ts in _TIES.items():
         PROPS[_p]["lean_modules"] = list(PROPS[_p]["lean_modules"]) + ["Toxi.Ties"]
         PROPS[_p]["theorems"] = list(PROPS[_p]["theorems"]) + ["Toxi.Ties." + t for t in _ts]
 _c15_extra()
+_c16_extra()
